@@ -163,24 +163,31 @@ def histories(thorough):
         ['I 1 2', 'D k = 9', 'D k < 100', 'I 1'],
         ['I 10 20 30 40 50 60 70 80', 'D k = 10', 'D k = 80', 'D k > 30 and k < 60', 'I 45', 'D v = 0'],
     ]
-    return base if not thorough else base + [h + ['I 100 101', 'D k > 99'] for h in base]
+    # inputs larger than one chunk (1024 rows) and one block, deletions spread over several row-sets
+    big = [['R 0 1300', 'R 1300 2600', 'D k % 3 = 0', 'D k >= 1000 and k < 1100', 'R 5000 5010', 'D v % 7 = 1', 'D k = 2599'],
+           ['R 0 2100', 'D k < 1024', 'D k = 1024', 'R 0 10', 'D k >= 2090']]
+    return (base + big) if not thorough else base + big + [h + ['I 100 101', 'D k > 99'] for h in base]
 
 
 def run_probes(rep, thorough):
     n = ok = 0
     for hi, hist in enumerate(histories(thorough)):
-        for eng, block in (('mem', None), ('disk', 4096), ('disk', 24)):
+        big = any(st.startswith('R ') for st in hist)
+        for eng, block in ((('mem', None), ('disk', 4096)) if big else (('mem', None), ('disk', 4096), ('disk', 24))):
             stmts = ['create table t(k int, v int)']
             model = []
+            deleted_rows = []
             seq = 0
             checks = []
             for step in hist:
-                if step.startswith('I '):
+                if step.startswith(('I ', 'R ')):
                     rows = []
-                    for k in step.split()[1:]:
+                    ks = step.split()[1:] if step.startswith('I ') else range(int(step.split()[1]), int(step.split()[2]))
+                    for k in ks:
                         rows.append((int(k), seq))
                         seq += 1
-                    stmts.append('insert into t values ' + ', '.join('(%d, %d)' % r for r in rows))
+                    for i0 in range(0, len(rows), 650):
+                        stmts.append('insert into t values ' + ', '.join('(%d, %d)' % r for r in rows[i0:i0 + 650]))
                     model += rows
                 else:
                     pred = step[2:]
@@ -191,6 +198,7 @@ def run_probes(rep, thorough):
                         hit = eval(pred.replace(' = ', ' == ').replace('and', 'and'), {}, {'k': k, 'v': v})
                         if hit:
                             removed += 1
+                            deleted_rows.append((k, v))
                         else:
                             keep.append((k, v))
                     model = keep
@@ -223,10 +231,36 @@ def run_probes(rep, thorough):
                     ok += 1
                     continue
                 key = 'history:%s:%s' % (eng, kind)
+                if kind == 'table-content' and eng == 'disk' and got is not None:
+                    extra = [r for r in got if r not in want]
+                    missing = [r for r in want if r not in got]
+                    if extra and not missing and all(r in deleted_rows for r in extra):
+                        # the symptom of the background compactor replacing row-sets while a DELETE commits (timing dependent)
+                        key = 'history:disk:deleted-rows-reappear'
                 what = 'after `%s` (history %d, %s engine%s): %s is %s, the model says %s' % ('; '.join(stmts[1:idx + 1])[-200:], hi, eng, ', %d-byte blocks' % block if block else '', kind, got, want)
                 outc = rep.counterexample(key, what[:500], {'stmts': stmts[:idx + 1], 'got': got, 'expected': want}, True)
                 rep.obligation(outc == 'known')
                 break
+    # one deliberately slow scenario (tiny blocks, 4200 rows): the background compactor's timer fires while the statements run
+    rows = [(k, k) for k in range(4200)]
+    stmts = ['create table t(k int, v int)'] + ['insert into t values ' + ', '.join('(%d, %d)' % r for r in rows[i:i + 650]) for i in range(0, 4200, 650)] + \
+            ['delete from t where k < 1024', 'select count(*) from t']
+    d = scratch_dir('c07slow')
+    out, rc, err = rl('sql', {'engine': 'disk', 'dir': d, 'block': 24, 'rowset': 1 << 20, 'stmts': stmts}, timeout=600)
+    shutil.rmtree(d, ignore_errors=True)
+    res = [o for o in out if 'sql' in o]
+    if len(res) == len(stmts) and res[-1].get('ok') and res[-2].get('ok'):
+        n += 1
+        cnt, dele = res[-1]['rows'][0][0], res[-2]['rows'][0][0]
+        if (dele, cnt) == ('1024', '3176'):
+            ok += 1
+        elif dele == '1024' and cnt == '4200':
+            outc = rep.counterexample('history:disk:deleted-rows-reappear', 'DELETE reported 1024 rows on the disk engine (4200 rows in 7 row-sets, 24-byte blocks, statements take several seconds) and count(*) afterwards is still 4200: the deleted rows are visible again',
+                                      {'stmts': [s_[:120] for s_ in stmts], 'delete_reported': dele, 'count_after': cnt}, True)
+            rep.obligation(outc == 'known')
+        else:
+            outc = rep.counterexample('history:disk:slow-scenario', 'DELETE reported %s rows and count(*) afterwards is %s (expected 1024 / 3176)' % (dele, cnt), {'stmts': [s_[:120] for s_ in stmts]}, True)
+            rep.obligation(outc == 'known')
     rep.cov['delete_history_probes'] = {'statements_checked': n, 'agreeing': ok, 'note': 'insert / delete histories on the memory and disk engines (several row-sets, 24-byte and 4 KiB blocks) against a multiset model; concrete probes, not a solver decision; compaction and reopen are not forced'}
 
 
